@@ -80,6 +80,17 @@ def run_case(args):
         d = obs_iterator(path, c["cl"])
         if d != c["exp"]:
             out["fails"].append(("iterator_dialect", d))
+        # the same lines as Feature objects in a list / a tuple / a one-shot generator: the inspected window is the same checklines+1 items
+        if k % 4 == 0:
+            import gffutils
+            from gffutils.feature import feature_from_line
+            for form in ("list", "tuple", "generator"):
+                objs = [feature_from_line((PREFIX % (10 * i + 1, 10 * i + 5)) + t) for i, t in enumerate(texts)]
+                data = objs if form == "list" else tuple(objs) if form == "tuple" else (o for o in objs)
+                with quiet():
+                    dd = A.proj_dialect(gffutils.DataIterator(data, checklines=c["cl"]).dialect)
+                if dd != c["exp"]:
+                    out["fails"].append(("iterator_dialect_" + form, dd))
         if with_db:
             marker = len(texts) > c["cl"] + 1
             write_file(path, texts, marker=marker_line(c["exp"]) if marker else None)
@@ -186,7 +197,7 @@ def run(ctx):
 def replay(ctx, rec):
     c = rec["case"]
     if "texts" not in c:
-        return True
+        raise core.CannotReplay("no executable case in this replay file")
     # recompute the expectation with the specification (MaxLen large enough for the case) is costly; re-observe and compare with the stored expectation
     exp = rec["detail"]["expected"]
     r = run_case((0, {"texts": [enc(t) for t in c["texts"]], "cl": c["cl"], "exp": exp, "imp": "gtf" if exp["fmt"] == "gtf" else "gff3"}, ctx.scratch, True))
